@@ -153,15 +153,15 @@ Qed.
 Lemma union_of_as_opt f cs : union_of f cs = union_opt (fun c => Some (f c)) cs.
 Proof. reflexivity. Qed.
 
-Lemma union_of_contains f cs u c : union_of f cs = Some u -> In c cs -> contains u (f c).
+Lemma union_of_contains f cs u c : union_of f cs = Some u -> In c (live cs) -> contains u (f c).
 Proof.
   rewrite union_of_as_opt. unfold union_opt. intros H Hin.
-  destruct (fold_expand_contains (fun c => Some (f c)) cs None u H) as [_ Hc]. eapply Hc; [exact Hin | reflexivity].
+  destruct (fold_expand_contains (fun c => Some (f c)) (live cs) None u H) as [_ Hc]. eapply Hc; [exact Hin | reflexivity].
 Qed.
-Lemma union_opt_contains f cs u c r : union_opt f cs = Some u -> In c cs -> f c = Some r -> contains u r.
+Lemma union_opt_contains f cs u c r : union_opt f cs = Some u -> In c (live cs) -> f c = Some r -> contains u r.
 Proof.
   unfold union_opt. intros H Hin Hf.
-  destruct (fold_expand_contains f cs None u H) as [_ Hc]. eapply Hc; eassumption.
+  destruct (fold_expand_contains f (live cs) None u H) as [_ Hc]. eapply Hc; eassumption.
 Qed.
 
 Lemma to_rect_some a u : to_rect a = Some u -> a = Some u.
@@ -194,14 +194,14 @@ Proof.
   - apply IH. left. destruct a; discriminate.
 Qed.
 
-Lemma union_valid f cs : cs <> [] -> (forall c, In c cs -> box_valid (f c) = true) ->
+Lemma union_valid f cs : live cs <> [] -> (forall c, In c (live cs) -> box_valid (f c) = true) ->
   exists u, union_of f cs = Some u /\ to_rect (union_of f cs) = Some u.
 Proof.
   intros Hne Hv. unfold union_of.
-  destruct (fold_left (fun a c => expand a (f c)) cs None) as [u|] eqn:E.
+  destruct (fold_left (fun a c => expand a (f c)) (live cs) None) as [u|] eqn:E.
   - exists u. split; [reflexivity|]. unfold to_rect.
-    rewrite (fold_expand_valid f cs None (fun b Hb => ltac:(discriminate)) Hv u E). reflexivity.
-  - exfalso. apply (fold_expand_nonempty f cs None (or_intror Hne)). exact E.
+    rewrite (fold_expand_valid f (live cs) None (fun b Hb => ltac:(discriminate)) Hv u E). reflexivity.
+  - exfalso. apply (fold_expand_nonempty f (live cs) None (or_intror Hne)). exact E.
 Qed.
 
 (* ------------------------------------------------------------------ calculate_bounding_boxes *)
@@ -210,16 +210,16 @@ Definition child_valid (c : child) : bool :=
 
 Theorem parent_contains_children abs_ts filters prev cs g ok :
   calculate_bounding_boxes abs_ts filters prev cs = (g, ok) ->
-  cs <> [] -> (forall c, In c cs -> child_valid c = true) ->
-  (* the four object / stroke boxes contain the contribution of every child *)
-  (forall c, In c cs ->
+  live cs <> [] -> (forall c, In c (live cs) -> child_valid c = true) ->
+  (* the four object / stroke boxes contain the contribution of every live child (empty groups have nothing to contain) *)
+  (forall c, In c (live cs) ->
      contains (gb_obj g) (c_obj c) /\ contains (gb_abs g) (c_abs c) /\
      contains (gb_stroke g) (c_stroke c) /\ contains (gb_abs_stroke g) (c_abs_stroke c)) /\
   (* the layer box is the filter region when there are filters, else it contains every child's layer box *)
   (ok = true ->
      match filters_bounding_box filters with
      | Some f => gb_layer g = f
-     | None => forall c l, In c cs -> c_layer c = Some l -> contains (gb_layer g) l
+     | None => forall c l, In c (live cs) -> c_layer c = Some l -> contains (gb_layer g) l
      end /\ nz_transform abs_ts (gb_layer g) = Some (gb_abs_layer g)).
 Proof.
   intros H Hne Hv.
@@ -253,7 +253,7 @@ Proof.
 Qed.
 
 Theorem object_bbox_contains cs u c :
-  calculate_object_bbox cs = Some u -> In c cs -> contains u (c_obj c).
+  calculate_object_bbox cs = Some u -> In c (live cs) -> contains u (c_obj c).
 Proof. unfold calculate_object_bbox. intros H. apply to_nonzero_some in H. apply union_of_contains. exact H. Qed.
 
 (* ------------------------------------------------------------------ transforms *)
@@ -468,10 +468,10 @@ Proof.
 Qed.
 
 Theorem abs_box_is_mapped_box_group t cs uo ua : skewless t ->
-  (forall c, In c cs -> box_valid (c_obj c) = true /\ box_eq (c_abs c) (map_box t (c_obj c))) ->
+  (forall c, In c (live cs) -> box_valid (c_obj c) = true /\ box_eq (c_abs c) (map_box t (c_obj c))) ->
   union_of c_obj cs = Some uo -> union_of c_abs cs = Some ua -> box_eq ua (map_box t uo).
 Proof.
-  intros Hs Hc Ho Ha. assert (H := fold_union_mapped t cs Hs Hc None None I).
+  intros Hs Hc Ho Ha. assert (H := fold_union_mapped t (live cs) Hs Hc None None I).
   unfold union_of in Ho, Ha. rewrite Ho, Ha in H. apply H.
 Qed.
 
@@ -542,3 +542,14 @@ Qed.
 (* ------------------------------------------------------------------ the source facts the model was written against *)
 Lemma bbox_facts_lock : bbox_facts = bbox_facts_expected.
 Proof. reflexivity. Qed.
+
+(* an empty child group (no children, no filters) contributes nothing: the result is the same without it *)
+Lemma live_app a b : live (a ++ b) = live a ++ live b.
+Proof. unfold live. apply filter_app. Qed.
+Theorem empty_group_is_skipped abs_ts filters prev l1 l2 :
+  calculate_bounding_boxes abs_ts filters prev (l1 ++ CEmptyGroup :: l2) = calculate_bounding_boxes abs_ts filters prev (l1 ++ l2) /\
+  calculate_object_bbox (l1 ++ CEmptyGroup :: l2) = calculate_object_bbox (l1 ++ l2).
+Proof.
+  assert (E : live (l1 ++ CEmptyGroup :: l2) = live (l1 ++ l2)) by (rewrite !live_app; reflexivity).
+  unfold calculate_bounding_boxes, calculate_object_bbox, union_of, union_opt. rewrite E. split; reflexivity.
+Qed.
